@@ -190,6 +190,10 @@ def sequence_case(ctx, sub, r, cid, call, agree, SC, S, snapshot, brief,
     nq = 60 if ctx.thorough else 40
     idx = r.permutation(len(allq))[:nq]
     Q = [allq[i] for i in idx]
+    # class-specific queries (two-group measures, effective resistances,
+    # twins, ...) always take part
+    extra_labels = {lb for lb, _ in sub.extra_queries(obj, m)}
+    Q += [q for q in allq if q[0] in extra_labels and q not in Q]
     spectral_ok = spectral_defined(obj)
     Q = [q for q in Q if not is_spectral(q[0]) or spectral_ok]
     # baseline: each query on its own fresh object
